@@ -33,17 +33,18 @@ PN = ["a", "b", "g"]
 CIRCUITS = {
     "H": lambda p: [qp.H(0)], "S": lambda p: [qp.S(0)], "RZ(a)": lambda p: [qp.RZ(p[0], 0)], "RotXZX(a,b,g)": lambda p: [RotXZX(p[0], p[1], p[2], 0)],
     "X.H.Z": lambda p: [qp.X(0), qp.H(0), qp.Z(0)], "X.S": lambda p: [qp.X(0), qp.S(0)], "H.Y.S": lambda p: [qp.H(0), qp.Y(0), qp.S(0)],
-    "RZ(a).H": lambda p: [qp.RZ(p[0], 0), qp.H(0)], "H.S": lambda p: [qp.H(0), qp.S(0)], "S.Y.RotXZX(a,b,g)": lambda p: [qp.S(0), qp.Y(0), RotXZX(p[0], p[1], p[2], 0)],
+    "RZ(a).H": lambda p: [qp.RZ(p[0], 0), qp.H(0)], "H.S": lambda p: [qp.H(0), qp.S(0)], "S.Y.RZ(a)": lambda p: [qp.S(0), qp.Y(0), qp.RZ(p[0], 0)],
     "CNOT": lambda p: [qp.CNOT([0, 1])], "CNOT(1,0)": lambda p: [qp.CNOT([1, 0])],
-    "H(1).CNOT(0,1)": lambda p: [qp.H(1), qp.CNOT([0, 1])],
     "H(1).S(0) (wires appear as 1, 0)": lambda p: [qp.H(1), qp.S(0)],
     "RZ(a,1).H(0).X(1).S(1) (wires appear as 1, 0)": lambda p: [qp.RZ(p[0], 1), qp.H(0), qp.X(1), qp.S(1)],
     "RZ(a).H.S.H.S.H (wire recycling)": lambda p: [qp.RZ(p[0], 0), qp.H(0), qp.S(0), qp.H(0), qp.S(0), qp.H(0)],
     "RZ(a,1).CNOT(0,1) (wire recycling)": lambda p: [qp.RZ(p[0], 1), qp.CNOT([0, 1])],
 }
 # circuits for the tracker: only the first gate of a wire may be non-Clifford (documented restriction of the tracker)
-TRACKER = ["H", "S", "RZ(a)", "X.H.Z", "X.S", "H.Y.S", "RZ(a).H", "H.S", "H(1).S(0) (wires appear as 1, 0)", "RZ(a,1).H(0).X(1).S(1) (wires appear as 1, 0)", "CNOT", "CNOT(1,0)", "H(1).CNOT(0,1)"]
-HEAVY = {"CNOT", "CNOT(1,0)", "H(1).CNOT(0,1)", "S.Y.RotXZX(a,b,g)", "RZ(a,1).CNOT(0,1) (wire recycling)", "RZ(a,1).H(0).X(1).S(1) (wires appear as 1, 0)"}  # minutes per item: thorough tier only
+TRACKER = ["H", "S", "RZ(a)", "X.H.Z", "X.S", "H.Y.S", "RZ(a).H", "H.S", "H(1).S(0) (wires appear as 1, 0)", "RZ(a,1).H(0).X(1).S(1) (wires appear as 1, 0)", "CNOT", "CNOT(1,0)"]
+# tried and dropped (stated as outside): S.Y.RotXZX(a,b,g) (the weight obligation after two Cliffords stays undecided at 180 s) and H(1).CNOT(0,1)
+# (17 symbolic outcomes on two symbolic input qubits: more than 40 minutes and 12 GB per item)
+HEAVY = {"CNOT", "CNOT(1,0)", "S.Y.RZ(a)", "RZ(a,1).CNOT(0,1) (wire recycling)", "RZ(a,1).H(0).X(1).S(1) (wires appear as 1, 0)"}  # minutes per item: thorough tier only
 # number of leading measurements that are symbolic; the remaining ones take the listed constant patterns
 SYMBOLIC_PREFIX = {"RZ(a).H.S.H.S.H (wire recycling)": 4, "RZ(a,1).CNOT(0,1) (wire recycling)": 4}
 
